@@ -1,7 +1,8 @@
-(* C01 lemmas, part 1: the relation equations computed by the model.  (Extended in Core/TimesProofs.v.) *)
-From Coq Require Import ZArith List Bool Lia.
+(* C01 lemmas: the relation equations computed by the model, over the whole times table of a graph, through nesting, and the
+   implicit placement performed by add_node.  Built on Core/TimesProofs.v, Core/TimesListing.v, Core/TimesWf.v. *)
+From Coq Require Import ZArith List Bool Lia ZifyBool Arith.
 Import ListNotations.
-From QCE Require Import Base.Prelude Core.Model.
+From QCE Require Import Base.Prelude Core.Model Core.Run Core.BfsProofs Core.BfsWf Core.TimesProofs Core.TimesListing Core.TimesWf.
 From Gen Require Import Ident Classes.
 Open Scope Z_scope.
 
@@ -18,3 +19,279 @@ Proof. destruct t; simpl; lia. Qed.
 
 Lemma start_from_unique t rs re d s : rel_eq t rs re s d -> s = start_from t rs re d.
 Proof. destruct t; simpl; lia. Qed.
+
+Lemma rel_eq_iff t rs re s d : rel_eq t rs re s d <-> s = start_from t rs re d.
+Proof. split; [apply start_from_unique | intros ->; apply start_from_sound]. Qed.
+
+(* ------------------------------------------------------------------ the equation of a link against a table *)
+(* no relation: the operation starts with its enclosing (sub-)circuit, i.e. it satisfies the equation of the enclosing
+   circuit's own link (the hand-off), or starts at the origin when there is none *)
+Definition ctx_eq (c : ctx) (s d : Z) : Prop :=
+  match c with None => s = 0 | Some (t, rs, re) => rel_eq t rs re s d end.
+
+Definition link_eq (c : ctx) (tm : list (Z * Z)) (l : link) (s d : Z) : Prop :=
+  match l with
+  | LNone | LDangling _ | LMulti [] => ctx_eq c s d
+  | LRel t p => rel_eq t (fst (nth p tm (0, 0))) (snd (nth p tm (0, 0))) s d
+  | LMulti ps => exists m, multi_first_latest tm ps m /\ s = snd (nth m tm (0, 0))   (* FOLLOWED_BY the first latest-ending member *)
+  end.
+
+Lemma ctx_eq_iff c s d : ctx_eq c s d <-> s = ctx_start c d.
+Proof. destruct c as [[[t rs] re]|]; simpl; [apply rel_eq_iff | tauto]. Qed.
+
+Lemma link_eq_iff c tm l s d : link_eq c tm l s d <-> s = link_start c tm l d.
+Proof.
+  destruct l as [|t p|ps|t]; simpl; try apply ctx_eq_iff.
+  - destruct (nth p tm (0, 0)) as [rs re]. simpl. apply rel_eq_iff.
+  - destruct ps as [|p ps]; [apply ctx_eq_iff|].
+    destruct (multi_ref tm (p :: ps)) as [m|] eqn:E; [|simpl in E; discriminate].
+    pose proof (multi_ref_spec _ _ _ E) as Sm. split.
+    + intros (m' & Sm' & ->). now rewrite (multi_first_latest_unique _ _ _ _ Sm' Sm).
+    + intros ->. exists m. auto.
+Qed.
+
+(* ------------------------------------------------------------------ C01: equations, uniqueness, stability *)
+Definition node_eqs (env : denv) (c : ctx) (ns : list node) (tm : list (Z * Z)) : Prop :=
+  forall i n, nth_error ns i = Some n ->
+    snd (nth i tm (0, 0)) = fst (nth i tm (0, 0)) + dur_of env (n_op n) /\
+    link_eq c tm (n_link n) (fst (nth i tm (0, 0))) (dur_of env (n_op n)).
+
+Theorem node_times_equations env c ns : wf_links (node_hs env ns) -> node_eqs env c ns (node_times env c ns).
+Proof.
+  intros W i n E. rewrite node_times_eq. rewrite (times_sound c _ W i _ _ (node_hs_nth env ns i n E)). simpl.
+  split; [reflexivity|]. apply link_eq_iff. reflexivity.
+Qed.
+
+Theorem node_times_unique env c ns tm' : wf_links (node_hs env ns) -> length tm' = length ns ->
+  node_eqs env c ns tm' -> tm' = node_times env c ns.
+Proof.
+  intros W L Q. rewrite node_times_eq. apply times_unique; [exact W|]. split; [now rewrite node_hs_length|].
+  intros i l d E. apply node_hs_nth_inv in E as (n & En & -> & ->). destruct (Q i n En) as [Q1 Q2].
+  apply link_eq_iff in Q2. rewrite <- Q2. destruct (nth i tm' (0, 0)) as [s e]; simpl in *. now rewrite Q1.
+Qed.
+
+Theorem node_times_prefix_stable env c ns ms i : (i < length ns)%nat ->
+  nth i (node_times env c (ns ++ ms)) (0, 0) = nth i (node_times env c ns) (0, 0).
+Proof.
+  intros Hi. rewrite !node_times_eq, node_hs_app. apply times_prefix_nth. now rewrite node_hs_length.
+Qed.
+
+Corollary add_node_keeps_times env c ns o l i : (i < length ns)%nat ->
+  nth i (node_times env c (add_node env ns o l)) (0, 0) = nth i (node_times env c ns) (0, 0).
+Proof. intros Hi. rewrite add_node_eq. apply node_times_prefix_stable. exact Hi. Qed.
+
+(* ------------------------------------------------------------------ C01 through nesting *)
+(* what a graph lists comes from the tables: the entry of a leaf node is its row; a block node lists its own graph, whose
+   table is computed in the context sub_ctx (its own link, or the inherited one) -- so node_times_equations, which holds for
+   EVERY context, gives the equations at every level, un-related inner operations satisfying the block's equation *)
+Lemma listing_in_inv env r ns c se e : In e (listing_op env (OComp r ns) c se) ->
+  exists i n, In i (bfs (parents ns)) /\ nth_error ns i = Some n /\
+    In e (listing_op env (n_op n) (sub_ctx c (node_times env c ns) (n_link n)) (nth i (node_times env c ns) (0, 0))).
+Proof.
+  rewrite listing_op_unfold. intros H. apply in_flat_map in H as (i & Hi & H). exists i.
+  destruct (nth_error ns i) as [n|] eqn:En.
+  - exists n. split; [exact Hi|]. split; [reflexivity|].
+    assert (Hl : (i < length ns)%nat) by (apply nth_error_Some; congruence).
+    rewrite (nth_indep _ (fun _ _ => []) (listing_op env (n_op n))) in H by (rewrite map_length; exact Hl).
+    rewrite (map_nth (fun n => listing_op env (n_op n)) ns n i) in H.
+    rewrite (nth_indep (map n_link ns) LNone (n_link n)) in H by (rewrite map_length; exact Hl).
+    rewrite (map_nth n_link ns n i) in H. now rewrite (nth_error_nth _ _ n En) in H.
+  - apply nth_error_None in En. rewrite (nth_overflow (map _ ns)) in H by (rewrite map_length; exact En). destruct H.
+Qed.
+
+Lemma listing_leaf env l c se e : In e (listing_op env (OLeaf l) c se) -> e = {| e_leaf := l; e_start := fst se; e_end := snd se |}.
+Proof. simpl. intros [<- | []]. reflexivity. Qed.
+
+(* the sub-context of a node is the context in which the equations of its inner graph are stated: for a related block it is
+   its own relation against the referent's row of the enclosing table *)
+Lemma sub_ctx_rel c tm t p : sub_ctx c tm (LRel t p) = Some (t, fst (nth p tm (0, 0)), snd (nth p tm (0, 0))).
+Proof. simpl. destruct (nth p tm (0, 0)); reflexivity. Qed.
+
+Lemma sub_ctx_none c tm : sub_ctx c tm LNone = c.
+Proof. reflexivity. Qed.
+
+Lemma sub_ctx_multi c tm ps m : multi_ref tm ps = Some m ->
+  sub_ctx c tm (LMulti ps) = Some (RelationType_FOLLOWED_BY, fst (nth m tm (0, 0)), snd (nth m tm (0, 0))).
+Proof. intros E. simpl. rewrite E. destruct (nth m tm (0, 0)); reflexivity. Qed.
+
+(* ------------------------------------------------------------------ C01: implicit placement by add_node *)
+Definition implicit_link (n : nat) (l : link) : Prop :=
+  match l with
+  | LNone | LDangling _ | LMulti [] => True
+  | LRel _ p => (n <= p)%nat
+  | LMulti _ => False
+  end.
+
+Definition implicit_node (ns : list node) (o : op) : node :=
+  match leaf_at_any ns (op_channels o) with
+  | None => Node None LNone o
+  | Some i => Node (Some i) (LRel RelationType_FOLLOWED_BY i) o
+  end.
+
+Theorem add_node_implicit env ns o l : implicit_link (length ns) l -> add_node env ns o l = ns ++ [implicit_node ns o].
+Proof.
+  intros I. unfold add_node, implicit_node. f_equal. f_equal.
+  destruct l as [|t p|[|q ps]|t]; simpl in I; try reflexivity; try contradiction.
+  destruct (Nat.ltb_spec p (length ns)); [lia | reflexivity].
+Qed.
+
+Theorem add_node_explicit env ns o t p : (p < length ns)%nat ->
+  add_node env ns o (LRel t p) = ns ++ [Node (Some p) (LRel t p) o].
+Proof. intros Hp. unfold add_node. destruct (Nat.ltb_spec p (length ns)); [reflexivity | lia]. Qed.
+
+(* the row of the newly added node *)
+Lemma node_times_last env c ns n :
+  nth (length ns) (node_times env c (ns ++ [n])) (0, 0) =
+    (link_start c (node_times env c ns) (n_link n) (dur_of env (n_op n)),
+     link_start c (node_times env c ns) (n_link n) (dur_of env (n_op n)) + dur_of env (n_op n)).
+Proof.
+  rewrite !node_times_eq, node_hs_app. unfold node_hs at 2. simpl. rewrite times_snoc.
+  rewrite <- (node_hs_length env ns), <- (times_length c (node_hs env ns)). apply nth_middle.
+Qed.
+
+(* an operation added without a (usable) relation: FOLLOWED_BY the last listed channel-sharing node, which has maximal
+   relation depth among the listed channel-sharing nodes; at the start of the circuit's context if there is none *)
+Theorem implicit_placement env c ns o l : wf_parents (parents ns) -> implicit_link (length ns) l ->
+  let ns' := add_node env ns o l in
+  let tm' := node_times env c ns' in
+  let d := dur_of env o in
+  match leaf_at_any ns (op_channels o) with
+  | Some i =>
+      nth_error ns' (length ns) = Some (Node (Some i) (LRel RelationType_FOLLOWED_BY i) o) /\
+      (i < length ns)%nat /\
+      nth (length ns) tm' (0, 0) = (snd (nth i tm' (0, 0)), snd (nth i tm' (0, 0)) + d) /\
+      any_match (op_channels o) (node_chans ns i) = true /\
+      (forall j, In j (bfs (parents ns)) -> any_match (op_channels o) (node_chans ns j) = true ->
+                 (depth (parents ns) j <= depth (parents ns) i)%nat)
+  | None =>
+      nth_error ns' (length ns) = Some (Node None LNone o) /\
+      nth (length ns) tm' (0, 0) = (ctx_start c d, ctx_start c d + d) /\
+      (forall j, In j (bfs (parents ns)) -> any_match (op_channels o) (node_chans ns j) = false)
+  end.
+Proof.
+  intros W I ns' tm' d. subst ns' tm'. rewrite (add_node_implicit env ns o l I). unfold implicit_node.
+  destruct (leaf_at_any ns (op_channels o)) as [i|] eqn:E.
+  - pose proof (leaf_at_any_lt _ _ _ E) as Hi. destruct (leaf_at_any_some _ _ _ W E) as (_ & M & _).
+    split; [rewrite nth_error_app2 by lia; now rewrite Nat.sub_diag|]. split; [exact Hi|].
+    split; [|split; [exact M | apply (leaf_at_any_max_depth _ _ _ W E)]].
+    rewrite node_times_last. simpl n_link. simpl n_op. fold d. simpl link_start.
+    rewrite (node_times_prefix_stable env c ns _ i Hi). destruct (nth i (node_times env c ns) (0, 0)); reflexivity.
+  - split; [rewrite nth_error_app2 by lia; now rewrite Nat.sub_diag|].
+    split; [|apply leaf_at_any_none; exact E]. rewrite node_times_last. reflexivity.
+Qed.
+
+(* ------------------------------------------------------------------ every program: equations at every nesting level *)
+(* all tables met while listing: the graph itself in its context, and recursively the graph of every block node in the context
+   handed to it *)
+Inductive table_of (env : denv) : ctx -> list node -> ctx -> list node -> Prop :=
+| table_here c ns : table_of env c ns c ns
+| table_sub c ns i p l r sub c' ns' :
+    nth_error ns i = Some (Node p l (OComp r sub)) ->
+    table_of env (sub_ctx c (node_times env c ns) l) sub c' ns' ->
+    table_of env c ns c' ns'.
+
+Lemma table_of_wf env c ns c' ns' r : table_of env c ns c' ns' -> wf_links_op (OComp r ns) -> wf_node_links ns'.
+Proof.
+  intros T. revert r. induction T as [c ns | c ns i p l r0 sub c' ns' E T IH]; intros r W.
+  - apply wf_links_op_inv in W. exact (proj1 W).
+  - apply wf_links_op_inv in W as [_ WD]. rewrite Forall_forall in WD. apply nth_error_In in E.
+    apply (IH r0). exact (WD _ E).
+Qed.
+
+Theorem nested_equations env c ns c' ns' r : wf_links_op (OComp r ns) -> table_of env c ns c' ns' ->
+  node_eqs env c' ns' (node_times env c' ns').
+Proof.
+  intros W T. apply node_times_equations. apply wf_node_links_hs. exact (table_of_wf env c ns c' ns' r T W).
+Qed.
+
+(* every listed entry is the row of a leaf node in one of these tables *)
+Definition is_row (env : denv) (c : ctx) (ns : list node) (e : entry) : Prop :=
+  exists c' ns' i n, table_of env c ns c' ns' /\ nth_error ns' i = Some n /\ n_op n = OLeaf (e_leaf e) /\
+                     (e_start e, e_end e) = nth i (node_times env c' ns') (0, 0).
+
+Theorem listing_entry_row env o :
+  match o with
+  | OLeaf _ => True
+  | OComp r ns => forall c se e, In e (listing_op env o c se) -> is_row env c ns e
+  end.
+Proof.
+  induction o as [l | r ns IH] using op_nodes_ind; [exact I|]. intros c se e H.
+  apply listing_in_inv in H as (i & n & _ & En & H). rewrite Forall_forall in IH.
+  specialize (IH n (nth_error_In _ _ En)). destruct n as [p l [lf | r' sub]]; simpl in *.
+  - destruct H as [<- | []]. exists c, ns, i, (Node p l (OLeaf lf)). simpl.
+    split; [constructor|]. split; [exact En|]. split; [reflexivity|]. now destruct (nth i (node_times env c ns) (0, 0)).
+  - destruct (IH _ (0, 0) _ H) as (c' & ns' & j & m & T & Em & Eo & Er). exists c', ns', j, m.
+    split; [|auto]. eapply table_sub; [exact En | exact T].
+Qed.
+
+Corollary listing_rows_equations env r ns c se e : wf_links_op (OComp r ns) -> In e (listing_op env (OComp r ns) c se) ->
+  exists c' ns' i n, table_of env c ns c' ns' /\ nth_error ns' i = Some n /\ n_op n = OLeaf (e_leaf e) /\
+                     (e_start e, e_end e) = nth i (node_times env c' ns') (0, 0) /\
+                     node_eqs env c' ns' (node_times env c' ns').
+Proof.
+  intros W H. destruct (listing_entry_row env (OComp r ns) c se e H) as (c' & ns' & i & n & T & En & Eo & Er).
+  exists c', ns', i, n. split; [exact T|]. split; [exact En|]. split; [exact Eo|]. split; [exact Er|].
+  exact (nested_equations env c ns c' ns' r W T).
+Qed.
+
+(* ------------------------------------------------------------------ non-vacuity: a concrete program *)
+Definition ex_wait (lab q d : Z) : leaf := mk_leaf lab C_Wait [q] QubitChannel_ALL (DFixed d) None.
+Definition ex_env : denv := mk_env 0 0 0 0 [].
+(* all three relation types, an implicit placement, a nested block repeated three times *)
+Definition ex_prog : list cmd :=
+  [ CAdd (ex_wait 0 0 10) None;
+    CAdd (ex_wait 1 1 3) (Some (RelationType_JOINED_START, 0%nat));
+    CAdd (ex_wait 2 2 4) (Some (RelationType_JOINED_END, 0%nat));
+    CAdd (ex_wait 3 1 2) (Some (RelationType_FOLLOWED_BY, 1%nat));
+    CSub 3 [ CAdd (ex_wait 4 0 1) None; CAdd (ex_wait 5 1 5) (Some (RelationType_JOINED_START, 0%nat)) ];
+    CAdd (ex_wait 6 0 1) None ].
+Definition ex_show (ns : list node) : list (Z * Z * Z) :=
+  map (fun e => (l_lab (e_leaf e), e_start e, e_end e)) (listing ex_env ns).
+
+Example ex_graph : map (fun n => (n_parent n, n_link n)) (run_prog ex_env ex_prog) =
+  [(None, LNone); (Some 0%nat, LRel RelationType_JOINED_START 0); (Some 0%nat, LRel RelationType_JOINED_END 0);
+   (Some 1%nat, LRel RelationType_FOLLOWED_BY 1); (Some 3%nat, LRel RelationType_FOLLOWED_BY 3);
+   (Some 4%nat, LRel RelationType_FOLLOWED_BY 4)].
+Proof. vm_compute. reflexivity. Qed.
+
+Example ex_times : node_times ex_env None (run_prog ex_env ex_prog) = [(0, 10); (0, 3); (6, 10); (3, 5); (5, 10); (10, 11)].
+Proof. vm_compute. reflexivity. Qed.
+
+Example ex_listing : ex_show (run_prog ex_env ex_prog) =
+  [(0, 0, 10); (1, 0, 3); (2, 6, 10); (3, 3, 5); (4, 5, 6); (5, 5, 10); (6, 10, 11)].
+Proof. vm_compute. reflexivity. Qed.
+
+Example ex_listing_unrolled : ex_show (apply_modifiers ex_env 1 (run_prog ex_env ex_prog)) =
+  [(0, 0, 10); (1, 0, 3); (2, 6, 10); (3, 3, 5); (4, 5, 6); (5, 5, 10); (4, 10, 11); (5, 10, 15); (4, 15, 16); (5, 15, 20);
+   (6, 20, 21)].
+Proof. vm_compute. reflexivity. Qed.
+
+(* the hypotheses of the theorems above hold for it (by the general lemmas, not by computation) *)
+Example ex_equations : node_eqs ex_env None (run_prog ex_env ex_prog) (node_times ex_env None (run_prog ex_env ex_prog)).
+Proof. apply node_times_equations, wf_node_links_hs, run_prog_wf_node_links. Qed.
+
+(* a multi-link: FOLLOWED_BY the first of the latest-ending members *)
+Example ex_multi :
+  let ns := [Node None LNone (OLeaf (ex_wait 0 0 4)); Node None LNone (OLeaf (ex_wait 1 1 7)); Node None LNone (OLeaf (ex_wait 2 2 7));
+             Node (Some 1%nat) (LMulti [0; 1; 2]%nat) (OLeaf (ex_wait 3 0 1))] in
+  node_times ex_env None ns = [(0, 4); (0, 7); (0, 7); (7, 8)] /\
+  multi_ref (node_times ex_env None ns) [0; 1; 2]%nat = Some 1%nat.
+Proof. vm_compute. split; reflexivity. Qed.
+
+(* ------------------------------------------------------------------ programs built through the API, plain and unrolled *)
+Theorem program_equations env p e : In e (listing env (run_prog env p)) ->
+  exists c' ns' i n, table_of env None (run_prog env p) c' ns' /\ nth_error ns' i = Some n /\ n_op n = OLeaf (e_leaf e) /\
+                     (e_start e, e_end e) = nth i (node_times env c' ns') (0, 0) /\
+                     node_eqs env c' ns' (node_times env c' ns').
+Proof. unfold listing. apply listing_rows_equations. apply run_prog_wf_links. Qed.
+
+Theorem unrolled_equations env p e : In e (listing env (apply_modifiers env 1 (run_prog env p))) ->
+  exists c' ns' i n, table_of env None (apply_modifiers env 1 (run_prog env p)) c' ns' /\ nth_error ns' i = Some n /\
+                     n_op n = OLeaf (e_leaf e) /\
+                     (e_start e, e_end e) = nth i (node_times env c' ns') (0, 0) /\
+                     node_eqs env c' ns' (node_times env c' ns').
+Proof. unfold listing. apply listing_rows_equations. apply unrolled_prog_wf_links. Qed.
+
+Theorem program_table_unique env p c tm' : length tm' = length (run_prog env p) ->
+  node_eqs env c (run_prog env p) tm' -> tm' = node_times env c (run_prog env p).
+Proof. apply node_times_unique, wf_node_links_hs, run_prog_wf_node_links. Qed.
